@@ -1,9 +1,10 @@
 CFG = {
     "extra_theorems": ["Xeh.LeafBridge.cutBits_matches_source", "Xeh.LeafBridge.cutBitsVal_bits", "Xeh.LeafBridge.bitMask_matches_source", "Xeh.LeafBridge.upperBoundIndex_matches_source"],
-    "extra_modules": ["XehModel.Proofs.LeafBridge"],
+    "extra_modules": ["XehModel.Proofs.Leaf.Bits"],
     "n_quick": 5000, "n_thorough": 200000,
     "rule": "operation sequences (3..17 ops) over a pool of handles built by the histories fresh / slice with parent alive / slice with parent dropped / borrowed static (+slice) / result of append / result of invert / from_hex_str / from_bin_str; start and end alignments uniform over 0..7, lengths 0..320 bits with 127/128/129 forced; ~12 % of the position/length arguments malformed (out of range, usize::MAX, start>end); after EVERY operation the result and (start, len, bits) of EVERY live handle are compared with the model and with an independent Vec<bool> reference; plus direct representation independence: the same logical value at 8 alignments x 6 ownership situations must answer all 12 queries and all combining/consuming operations identically (thorough: exhaustive over lengths 0..24 x alignments x situations). A case = one sequence; distinct = distinct request lines"
-        " Added after the fourth campaign: two views of ONE buffer holding the same bits at different places (and a third differing in one bit) compared with ==, eq_with and Cell equality; every eq of the sequences checks == against eq_with.",
+        " Added after the fourth campaign: two views of ONE buffer holding the same bits at different places (and a third differing in one bit) compared with ==, eq_with and Cell equality; every eq of the sequences checks == against eq_with."
+        " Added after the sixth campaign: the C API's byte export (xeh_bitstr_bytes / xeh_bitstr_len on a value popped bare, tagged, or out of a vector) for every variant of every value: the value's bytes or NULL, never freed memory.",
     "trusted_base_extra": [
         "heap model of Rc<Cow<'static,[u8]>>: strong counts, Rc::make_mut and Cow::to_mut are modelled by hand (Model/Bitstr.lean) and validated by the correspondence through the observable start() after detach/append/invert",
         "iterators are collected eagerly in the model (Rust's are lazy); the two agree on well-formed values, where no element access panics",
